@@ -770,6 +770,19 @@ def _run_clone(case, out):
                 return
         if clone.seed() != orig.seed() or clone.original_seed() != orig.original_seed():
             out.fail("independence:deep-copy-shares-state", "seed accessors differ")
+        # a stream created without a seed has a seed all the same (it reports it): reset() replays its sequence
+        # and a stream created with that seed repeats it
+        if case["seed"] % 4 == 0:
+            un = MersenneTwister()
+            first = [un.next_float().hex() for _ in range(3)]
+            un.reset()
+            again = [un.next_float().hex() for _ in range(3)]
+            other = MersenneTwister(un.seed())
+            same = [other.next_float().hex() for _ in range(3)]
+            if first != again or first != same or un.seed() != un.original_seed():
+                out.fail("reset:unseeded-stream", {"seed": un.seed(), "first": first, "after_reset": again,
+                                                   "stream_with_that_seed": same})
+                return
         # a copy (shallow, deep or pickled) of a stream that was given another seed has that seed: it reports it and
         # reset() replays it
         for how, copier in (("copy", copy.copy), ("deepcopy", copy.deepcopy),
